@@ -161,6 +161,12 @@ class TimersCtx(BaseCtx):
             self.gen_steps = getattr(self, "gen_steps", 0) + 1
             self.next_arrival = self.world.now() + rng.pick([0.0, 0.5])
             return ["clockstep", rng.pick([-86400.0, -3600.0, -30.0, -2.0, 5.0, 3600.0])]
+        if self.cfg.get("rr_arrivals") and rng.chance(0.2):
+            # a ROUTE-REFRESH (any subtype, either code point) is not an arrival for the hold timer, and the
+            # messages after it are
+            self.next_arrival = self.world.now() + rng.pick([0.0, 0.5])
+            self.stats["gen:route_refresh_arrival"] += 1
+            return ["send", self.k(), base.gen_rr(rng).hex(), []]
         if self.cfg.get("malformed_updates") and rng.chance(0.3):
             # a well-framed UPDATE whose body is malformed: still an UPDATE for the hold timer
             from sim.profiles import hostile
@@ -434,6 +440,7 @@ class TimersProfile(BaseProfile):
         cfg["rest_sends"] = rng.chance(0.15)
         cfg["malformed_updates"] = rng.chance(0.2)
         cfg["partial_frames"] = rng.chance(0.15)
+        cfg["rr_arrivals"] = rng.chance(0.15)
         cfg["clock_steps"] = rng.pick([1, 2]) if rng.chance(0.15) else 0
         if rng.chance(0.12) and not cfg.get("hfail_established"):
             # the stock DefaultHandler (message log with a small rotation threshold on the simulated file
